@@ -174,6 +174,11 @@ def _x_cases():
         out.append(('union-callback:%s' % n, [["U", "O", ms]], 'union-callback-field:abort', None))
     out.append(('union-callback:embedded', [["U", "I", [i8, ["cb"]]], ["S", "O", [i8, ["v", "I"]]]],
                 'union-callback-field:abort', None))
+    # bare <callback> child of a <union> (hand-written GIR; the scanner wraps function pointers in <field>)
+    for ms, n in (([["icb"]], 'icb'), ([["icb"], i8], 'icb,i8'), ([i8, ["icb"]], 'i8,icb'), ([i32, ["icb"], i8], 'i32,icb,i8')):
+        out.append(('union-bare-callback:%s' % n, [["U", "O", ms]], 'union-bare-callback:ignored', None))
+    out.append(('union-bare-callback:embedded', [["U", "I", [i8, ["icb"]]], ["S", "O", [i8, ["v", "I"]]]],
+                'union-bare-callback:ignored', None))
     # offsets that do not fit FieldBlob.struct_offset (16 bits; 0xFFFF means unknown)
     for k in (65533, 65534, 65535, 65536, 70000):
         out.append(('large:i8[%d]' % k, [["S", "O", [["a", i8, k], i8, i8, i8]]], 'offset:overflow16', None))
